@@ -16,6 +16,7 @@ import (
 	"io"
 	"net/http"
 	"net/http/httptest"
+	"net/url"
 	"reflect"
 	"sort"
 	"strings"
@@ -32,6 +33,8 @@ type stressItem struct {
 	Op      string              `json:"op"`
 	Params  any                 `json:"params"`
 	ReqJSON string              `json:"req_json"`
+	// Override: the call overrides the server URL with the shared URL value
+	Override bool `json:"override"`
 }
 
 type stressReq struct {
@@ -122,10 +125,23 @@ func (s *server) stressCall(it *stressItem) (out string) {
 		return "no client method " + it.Op
 	}
 	mt := m.Type()
-	args := []reflect.Value{reflect.ValueOf(context.Background())}
+	ctx := context.Background()
+	// every other call overrides the server URL with one URL value shared by all goroutines (it ends in a slash:
+	// anything that normalises it in place would be writing shared state)
+	override := it.Override && s.stressURL != nil
+	if override && s.api.ServerURLContext != nil {
+		ctx = s.api.ServerURLContext(ctx, s.stressURL)
+	}
+	args := []reflect.Value{reflect.ValueOf(ctx)}
 	for i := 1; i < mt.NumIn(); i++ {
 		at := mt.In(i)
 		if mt.IsVariadic() && i == mt.NumIn()-1 {
+			if override && s.api.ServerURLOption != nil {
+				opt := reflect.ValueOf(s.api.ServerURLOption(s.stressURL))
+				if opt.Type().AssignableTo(at.Elem()) {
+					args = append(args, opt)
+				}
+			}
 			continue
 		}
 		if strings.HasSuffix(at.Name(), "Params") && at.Kind() == reflect.Struct && at.Name() == it.Op+"Params" {
@@ -191,6 +207,9 @@ func (s *server) stress(req *stressReq, ans map[string]any) {
 			return
 		}
 		s.stressClient = c
+		if u, err := url.Parse(s.stressTS.URL + "/"); err == nil {
+			s.stressURL = u
+		}
 	}
 	n := len(req.Items)
 	alone := make([]string, n)
